@@ -47,7 +47,7 @@ inductive Site where
   | executeStoreSector | executeReadRegistry | executeUpdateRegistry
   | swapSectors | trimSectors | updateSector | sectorRoot
   | rpcSectorRoots | rpcRead | rpcWrite | rpcFormContract
-  | validateStdRevision | recorderFlush
+  | validateStdRevision | recorderFlush | processFundAccountPayment
 deriving DecidableEq, Repr
 
 /-- the name the harness derives from the Go stack trace -/
@@ -66,6 +66,7 @@ def Site.name : Site → String
   | .rpcSectorRoots => "rpcSectorRoots" | .rpcRead => "rpcRead" | .rpcWrite => "rpcWrite"
   | .rpcFormContract => "rpcFormContract"
   | .validateStdRevision => "validateStdRevision" | .recorderFlush => "registryAccessRecorder.Flush"
+  | .processFundAccountPayment => "processFundAccountPayment"
 
 /-- Which repairs the code under test contains.  `false` = the guard as written
 in the pinned snapshot. -/
@@ -92,13 +93,15 @@ structure Fixes where
   revisionSum : Bool := false
   /-- `registry.NewManager` sets `recorder.store` -/
   regRecorder : Bool := false
+  /-- `processFundAccountPayment` rejects a transfer smaller than `FundAccountCost` instead of `Sub`-ing it -/
+  fundCost : Bool := false
 deriving DecidableEq, Repr
 
 /-- every repair applied -/
 def Fixes.all : Fixes :=
   { pdOverflow := true, unlockKeyMin := true, readSector := true, readOffset := true, dropSectors := true,
     v2Roots := true, v2Read := true, v2WriteUpdateProof := true, v2FormKeyLen := true, revisionSum := true,
-    regRecorder := true }
+    regRecorder := true, fundCost := true }
 
 /-- the pinned snapshot: nothing repaired -/
 def Fixes.none : Fixes := {}
@@ -125,6 +128,7 @@ def Fixes.enable (f : Fixes) (name : String) : Option Fixes :=
   | "7" | "v2WriteUpdateProof" => some { f with v2WriteUpdateProof := true }
   | "8" | "v2FormKeyLen" => some { f with v2FormKeyLen := true }
   | "9" | "regRecorder" => some { f with regRecorder := true }
+  | "10" | "fundCost" => some { f with fundCost := true }
   | "revisionSum" => some { f with revisionSum := true }
   | "all" => some Fixes.all
   | "none" => some Fixes.none
@@ -545,6 +549,88 @@ def handle (f : Fixes) (s : HostState) (r : Request) : Outcome × HostState :=
   else if admitted s r then
     settle f s r (execInstrs f r.pdLen r.rd r.prices r.duration { budget := r.budget, spent := r.initCost } s.roots 0 [] r.prog)
   else (.refused, s)
+
+/-! ## the other paid RHP3 RPCs (rhp/v3/rpc.go, payments.go)
+
+`handleRPCFundAccount`, `handleRPCAccountBalance`, `handleRPCLatestRevision`,
+`handleRPCPriceTable`: a registered price table id, a payment (ephemeral account
+or contract revision) and `budget.Spend(cost)`; FundAccount moves the contract
+payment minus `FundAccountCost` into an account. -/
+
+inductive Rpc3 where
+  | fund | balance | revision | priceTable
+deriving DecidableEq, Repr
+
+structure PaidReq where
+  rpc    : Rpc3
+  /-- the price table id is registered and not expired -/
+  uidOk  : Bool := true
+  pay    : PayMode := .ok
+  /-- payment by contract revision (`false`: ephemeral account withdrawal) -/
+  byContract : Bool := false
+  /-- amount withdrawn from the account / transferred by the contract revision -/
+  amount : Nat
+  /-- `pt.FundAccountCost`, `AccountBalanceCost`, `LatestRevisionCost`, `UpdatePriceTableCost` -/
+  cost   : Nat
+  /-- fund: the credited account is the one whose balance is observed -/
+  toSelf : Bool := true
+  /-- latest revision: the contract exists / the renter goes on to pay -/
+  known  : Bool := true
+  pays   : Bool := true
+
+inductive POut where
+  | accept | reject | panic (s : Site)
+deriving DecidableEq, Repr
+
+/-- `processPayment`/`processFundAccountPayment` up to the creation of the budget -/
+def payStage (f : Fixes) (s : HostState) (r : PaidReq) : List Step :=
+  (match r.pay with
+    | .ok => []
+    | .refused => [ .guard false ]
+    | .sumOverflow => if f.revisionSum then [ .guard false ] else [ .need false .validateStdRevision ]) ++
+  (if r.byContract then [] else
+    [ .guard (decide (r.amount ≠ 0)),              -- "withdrawal request has zero amount"
+      .guard (decide (r.amount ≤ s.balance)) ])    -- accounts.Budget: insufficient funds
+
+/-- state after the payment revision of a pay-by-contract request was accepted: the refund account holds `amount` -/
+def afterContractPayment (s : HostState) (r : PaidReq) : HostState :=
+  if r.byContract then { s with rev := s.rev + 1, balance := s.balance + r.amount } else s
+
+/-- a paid RPC after its payment: `budget.Spend(cost)` then commit -/
+def spendCost (s : HostState) (r : PaidReq) : POut × HostState :=
+  let s1 := afterContractPayment s r
+  if r.cost ≤ r.amount then (.accept, { s1 with balance := s1.balance - r.cost }) else (.reject, s1)
+
+def paid (f : Fixes) (s : HostState) (r : PaidReq) : POut × HostState :=
+  match r.rpc with
+  | .fund =>
+      let steps : List Step :=
+        [ .guard r.uidOk, .guard r.byContract ] ++ payStage f s r ++
+        (if f.fundCost then [ .guard (decide (r.cost ≤ r.amount)) ]
+         else [ .need (decide (r.cost ≤ r.amount)) .processFundAccountPayment ])   -- totalAmount.Sub(pt.FundAccountCost)
+      match run { budget := 0 } steps with
+      | .panic site => (.panic site, s)
+      | .reject _ => (.reject, s)
+      | .pass _ => (.accept, { s with rev := s.rev + 1, balance := if r.toSelf then s.balance + (r.amount - r.cost) else s.balance })
+  | .balance =>
+      match run { budget := 0 } ([ .guard r.uidOk ] ++ payStage f s r) with
+      | .panic site => (.panic site, s)
+      | .reject _ => (.reject, s)
+      | .pass _ => spendCost s r
+  | .priceTable =>
+      match run { budget := 0 } (payStage f s r) with
+      | .panic site => (.panic site, s)
+      | .reject _ => (.reject, s)
+      | .pass _ => spendCost s r
+  | .revision =>
+      if !r.known then (.reject, s)
+      else if !r.pays then (.accept, s)
+      else
+        -- the revision has been sent; the payment that follows is optional and its failure is not reported to the renter
+        match run { budget := 0 } ([ .guard r.uidOk ] ++ payStage f s r) with
+        | .panic site => (.panic site, s)
+        | .reject _ => (.accept, s)
+        | .pass _ => (.accept, (spendCost s r).2)
 
 /-! ## RHP2 range checks (rhp/v2/rpc.go + the validators of core it relies on) -/
 
